@@ -37,7 +37,6 @@ var itOrderAgnostic = map[string]string{
 
 // reviewed exceptions of the numbering recogniser: key -> reason
 var itOrderExceptions = map[string]string{
-	"pkg/obiiter.(IBioSequence).IMergeSequenceBatch:newIter": "loop counter j with a push guarded by batch.Len()>0: an iteration pushes nothing only when Next() returned false at once, i.e. on the terminating iteration (each consumed batch contributes exactly one merged record)",
 	"pkg/obitools/obirefidx.IndexReferenceDB:indexed":        "order l[0]/10 of a work range that starts at multiples of 10: affine image of a gap-free range",
 }
 
